@@ -439,3 +439,10 @@ TRUSTED = TRUSTED + ['translate/pystim2coq.py (fail-closed ast translator of the
                      'int(round(t * fs)) / int(delay * fs), the rise_time-is-None branch, the window look-up, the SAM formula, `transform`, '
                      'the input factory\'s next / reset calls, env * token; np.zeros / np.ones / np.clip / np.concatenate / basic slicing '
                      'as Stim/Model.v and Common/PySlice.v model them']
+
+
+TRUSTED = TRUSTED + ['translate/pystim2coq.py, second part: repeat() (length test, ValueError; pinned: int(round(fs / rate)), int(round(fs * delay)), '
+                     'the 2-D layout np.zeros((n + skip_n, s_period)) / result[skip_n:, s_delay:s_delay + s_waveform] = waveform / ravel mapped '
+                     'to np_zeros2 / np_set_rows / np_ravel of the generated file), RepeatFactory.reset (pinned: the input\'s reset and '
+                     'get_samples_remaining calls, the call of repeat), Transform.next / reset (pinned: the input\'s next / reset, '
+                     'self.transform); tie proofs in coq/Stim/ProofsTieRep.v']
